@@ -106,12 +106,11 @@ def run(ctx):
             ctx.violation({"site": "sqlparser", "why": "panic", "where": where, "err": re.sub(r"\d+", "N", x["err"])[:60], "src": c["src"]}, {"sql": c["sql"]}, expected="a tree or a syntax error",
                           observed=x["err"][:300], note="the parser / printer panicked")
         elif x["stage"] == "parse2":
-            # two recorded classes get their own attribute: a back-quoted reserved word used as a function name, and vitess' placeholder statements
-            near = re.search(r"near '([a-z_]+)'", x["err"])
-            kwfunc = bool(near and re.search(r"`%s`\s*\(" % near.group(1), c["sql"], re.I) and re.search(r"(?<![`\w])%s\(" % near.group(1), x["printed"], re.I))
+            # recorded classes get their own attribute: vitess' placeholder statements, and names that need back quotes sitting in nodes the vendored
+            # printer writes as plain text (decided on the tree by the driver)
             placeholder = x["printed"].split(" ")[0] in ("otherread", "otheradmin")
-            plain = bool(near and x.get("plain_string_fields") and re.search(r"`%s`" % near.group(1), c["sql"], re.I)) and not kwfunc
-            ctx.violation({"site": "sqlparser.String", "why": "printed text does not parse", "features": f[:6], "src": c["src"], "keyword_function_name": kwfunc, "placeholder_statement": placeholder, "keyword_in_plain_string_field": plain, "fields": x.get("plain_string_fields", []) if plain else []},
+            plain = x.get("quoted_names_in_plain_text_nodes", [])
+            ctx.violation({"site": "sqlparser.String", "why": "printed text does not parse", "features": f[:6], "src": c["src"], "placeholder_statement": placeholder, "quoted_name_in_plain_text_node": bool(plain), "nodes": plain},
                           {"sql": c["sql"]}, expected="String(Parse(s)) parses",
                           observed={"printed": x["printed"], "error": x["err"]}, note="the printed statement is rejected by the parser")
         elif not x["equal"]:
@@ -121,7 +120,9 @@ def run(ctx):
                 i += 1
             node = re.findall(r"([A-Z][A-Za-z]+)\{[^{}]*$", d1[:i])
             field = re.findall(r"([A-Z][A-Za-z]+):[^: ]*$", d1[:i])
-            ctx.violation({"site": "sqlparser.String", "why": "reparsed tree differs", "node": (node[-1] if node else ""), "field": (field[-1] if field else ""), "src": c["src"]},
+            plain = x.get("quoted_names_in_plain_text_nodes", [])
+            ctx.violation({"site": "sqlparser.String", "why": "reparsed tree differs", "node": (node[-1] if node else ""), "field": (field[-1] if field else ""), "src": c["src"],
+                           "quoted_name_in_plain_text_node": bool(plain), "nodes": plain},
                           {"sql": c["sql"]}, expected="the same tree", observed={"printed": x["printed"], "tree_before": d1[max(0, i - 80):i + 80], "tree_after": d2[max(0, i - 80):i + 80]},
                           note="Parse(String(Parse(s))) differs from Parse(s)")
     if accepted["SqlAst"] < 0.5 * total["SqlAst"]:
